@@ -250,3 +250,124 @@ def judge(ctx, execs, traces, aborts, name, chunks=12):
         ctx.fail("%s:probe_abort:rc%d" % (ctx.pid, rc), "memory error or crash in the session",
                  {"stderr": err, "commands": execs[gi].cmds if gi is not None else None})
     return fails
+
+
+# ---------------------------------------------------------------------------------------------------
+# Reactive driving (C20, C21): the driver is the counterparty / the network and answers what the
+# session actually wrote, so commands are sent one at a time.
+import json as _json
+import select
+import subprocess
+
+
+class Live:
+    """A probe_session process driven interactively: cmd() sends one command and returns its event."""
+    SILENT = ("clock", "set", "outhex")
+
+    def __init__(self, variant="plain", cwd=None):
+        self.bin = probe_binary(variant)
+        self.p = subprocess.Popen([self.bin], stdin=subprocess.PIPE, stdout=subprocess.PIPE, stderr=subprocess.PIPE,
+                                  text=True, bufsize=1, env=build.run_env(variant), cwd=cwd)
+        self.dead = False
+
+    def cmd(self, line, timeout=60):
+        self.p.stdin.write(line + "\n")
+        self.p.stdin.flush()
+        word = line.split()[1] if line.startswith("@") else line.split()[0]
+        if word in self.SILENT:
+            return None
+        r, _, _ = select.select([self.p.stdout], [], [], timeout)
+        if not r:
+            self.dead = True
+            raise core.Infra("probe_session did not answer %r within %ds" % (line[:60], timeout))
+        out = self.p.stdout.readline()
+        if not out:
+            self.dead = True
+            return {"e": "Abort", "rc": self.p.wait(), "stderr": core.san_report(self.p.stderr.read())}
+        ev = _json.loads(out)
+        if ev["e"] == "Error":
+            raise core.Infra("probe_session: %s" % ev)
+        return ev
+
+    def close(self):
+        try:
+            if not self.dead:
+                self.p.stdin.write("quit\n")
+                self.p.stdin.flush()
+            self.p.wait(timeout=20)
+        except Exception:
+            self.p.kill()
+
+
+class Peer:
+    """A FIX-conformant counterparty: numbers and logs what it sends, replays application messages as PossDup and
+    gap-fills administrative ones when asked."""
+
+    def __init__(self, me="ACC", you="INI"):
+        self.me, self.you = me, you
+        self.next = 1
+        self.log = []          # [{"seq","kind","id","sending"}]
+
+    def emit(self, kind, now, ident=0, logon=False, hb=30):
+        seq = self.next
+        self.next += 1
+        self.log.append({"seq": seq, "kind": kind, "id": ident, "sending": now, "logon": logon})
+        if logon:
+            wire = F.compose("A", seq, self.me, self.you, F.ts(now), [(98, 0), (108, hb)])
+            desc = {"type": "A", "hbint": hb}
+        elif kind == "app":
+            wire = F.compose("D", seq, self.me, self.you, F.ts(now), F.new_order("p%d" % ident))
+            desc = {"type": "D", "id": 100 + ident}
+        else:
+            wire = F.compose("0", seq, self.me, self.you, F.ts(now))
+            desc = {"type": "0"}
+        return wire, self._desc(desc, seq, now)
+
+    def _desc(self, d, seq, now, possdup=False, orig=None):
+        base = {"type": "", "seq": seq, "possdup": possdup, "has_orig": orig is not None,
+                "orig": (orig - T0) if orig is not None else 0, "sending": now - T0, "sci": self.me, "tci": self.you,
+                "id": 0, "valid": True, "why": "", "hbint": 0, "reset": False, "testreqid": "", "begin": 0, "end": 0,
+                "newseq": 0, "gapfill": False}
+        base.update(d)
+        return base
+
+    def replay(self, begin, end, now):
+        """[(wire, desc)] answering ResendRequest [begin, end] (end 0 = to the latest)."""
+        last = self.next - 1
+        hi = last if end == 0 else min(end, last)
+        out = []
+        q = begin
+        while q <= hi:
+            e = self.log[q - 1]
+            if e["kind"] == "app":
+                wire = F.compose("D", q, self.me, self.you, F.ts(now), F.new_order("p%d" % e["id"]), possdup=True,
+                                 orig=F.ts(e["sending"]))
+                out.append((wire, self._desc({"type": "D", "id": 100 + e["id"]}, q, now, True, e["sending"])))
+                q += 1
+            else:
+                r = q
+                while r <= hi and self.log[r - 1]["kind"] != "app":
+                    r += 1
+                wire = F.compose("4", q, self.me, self.you, F.ts(now), [(123, "Y"), (36, r)], possdup=True,
+                                 orig=F.ts(now))
+                out.append((wire, self._desc({"type": "4", "gapfill": True, "newseq": r}, q, now, True, now)))
+                q = r
+        return out
+
+
+def conv_live(ev, indesc=None, cfg=None):
+    """Project one live probe event (see to_monitor) with an explicit inbound description."""
+    e = ev["e"]
+    if e == "Reset":
+        return {"e": "Reset", "cfg": cfg if cfg is not None else ev["cfg"]}
+    if e == "New":
+        return {"e": "New"}
+    m = {"e": e, "w": ev.get("w", "a"), "ret": ev["ret"], "out": [conv_out(o) for o in ev["out"]],
+         "delivered": [{"seq": d["seq"], "id": idnum(d["id"]), "possdup": d["possdup"]} for d in ev["delivered"]],
+         "pre": conv_state(ev["pre"]), "post": conv_state(ev["post"]),
+         "now": ev["now"]["day"] * 86400 + ev["now"]["sec"] - T0, "in": [indesc] if indesc else []}
+    if e == "Start":
+        m["cfg_send"], m["cfg_recv"] = ev["cfg_send"], ev["cfg_recv"]
+    if e == "Recv":
+        m["exc"] = ev.get("exc", "")
+    return m
